@@ -112,7 +112,7 @@ func callObservation(cc *callCase, o *RunnerObs) (map[string]any, bool, string) 
 		hasBodyVerb := rq.Method == "POST" || rq.Method == "PUT" || rq.Method == "PATCH"
 		if hasBodyVerb {
 			switch {
-			case bytes.Equal(body, Wire(cc.reqMsg)):
+			case bytes.Equal(body, Wire(cc.reqMsg)) || wireDecodesTo(body, cc.reqMsg):
 				bf = "proto"
 			case json.Valid(body):
 				bf = "json"
@@ -356,6 +356,9 @@ func z3TagsC01(c *callCase) []string {
 	if c.ct == 2 {
 		tags = append(tags, "octet-stream-json-body")
 	}
+	if strings.Contains(c.svc.BasePath, "{") {
+		tags = append(tags, "base-path-variable-unbound")
+	}
 	for _, pv := range rePathVar.FindAllStringSubmatch(c.md.Path, -1) {
 		fd := c.reqMsg.Descriptor().Fields().ByName(protoreflect.Name(pv[1]))
 		if fd != nil && fd.Kind() == protoreflect.StringKind {
@@ -385,4 +388,17 @@ func z3TagsC01(c *callCase) []string {
 		}
 	}
 	return tags
+}
+
+// wireDecodesTo: does body decode (as the message's type) to a message equal to m?  (proto.Marshal
+// does not order map entries deterministically, so byte equality is too strict.)
+func wireDecodesTo(body []byte, m *dynamicpb.Message) bool {
+	if len(body) == 0 {
+		return false
+	}
+	d := dynamicpb.NewMessage(m.Descriptor())
+	if proto.Unmarshal(body, d) != nil {
+		return false
+	}
+	return proto.Equal(d, m)
 }
